@@ -17,6 +17,14 @@ import (
 var RepoDir = "/repo"
 var VerifDir = "/verif"
 
+func init() {
+	// developer override (mutation experiments on a scratch copy); the
+	// registered commands never set it.
+	if v := os.Getenv("VERIF_REPO_DIR"); v != "" {
+		RepoDir = v
+	}
+}
+
 // pkgDirs maps harness directory names to directories of /repo.
 var pkgDirs = map[string]string{
 	"fasthttp":      ".",
